@@ -107,6 +107,7 @@ func run(t *testing.T, tape *simrt.Tape) *hx.Outcome {
 	images := []*image{
 		{name: "reg.example/repo/a:1", host: "reg.example", repo: "repo/a", srvAddr: "https://reg.example"},
 		{name: "reg.example/repo/b:1", host: "reg.example", repo: "repo/b", srvAddr: "reg.example"},
+		{name: "reg.example/repo/a:2", host: "reg.example", repo: "repo/a", srvAddr: "https://reg.example"}, // same repository, other reference
 		{name: "docker.io/library/c:1", host: "registry-1.docker.io", repo: "library/c", srvAddr: "https://index.docker.io/v1/"},
 	}
 	for i, im := range images {
@@ -484,7 +485,7 @@ func run(t *testing.T, tape *simrt.Tape) *hx.Outcome {
 func TestC18(t *testing.T) {
 	hx.Main(t, hx.Prop{
 		ID:   "C18",
-		Rule: "each run draws the registry's auth mode (none / Basic challenge / Bearer challenge with a token endpoint), redirect to a CDN (with URLs expiring with 403), HEAD refusal, a mirror with its own configured header, 1-3 layer tasks and a CRI backend failure rate; a CRI client issues 2-9 PullImage / RemoveImage requests over three images (two repositories of one registry and a docker.io alias) with every auth form (user/password, identity token, base64 auth) and server address (none, the image's own registry, another registry, the mirror); a query task asks the keychain directly for (host, reference) pairs; layer tasks resolve, read, check and refresh blobs of their image through service/resolver.RegistryHostsFromConfig (real go-retryablehttp, net/http client and docker authorizer over the simulated transport). Secrets and header values are unique strings; EVERY request seen by any simulated host is scanned (URL, headers, decoded Basic auth, form bodies; tokens issued by the token endpoint are derived secrets): a credential may appear only in requests made for the image reference it was captured for, to the host its server address names (if any), while it is the most recent pull of that reference and the image is not removed, and never at the CDN; a configured header only at its own host. non-trivial = a request carried a credential, or the CDN was reached; distinct = schedule hash x configuration",
+		Rule: "each run draws the registry's auth mode (none / Basic challenge / Bearer challenge with a token endpoint), redirect to a CDN (with URLs expiring with 403), HEAD refusal, a mirror with its own configured header, 1-3 layer tasks and a CRI backend failure rate; a CRI client issues 2-9 PullImage / RemoveImage requests over four images (two references of one repository, another repository of the same registry, and a docker.io alias) with every auth form (user/password, identity token, base64 auth) and server address (none, the image's own registry, another registry, the mirror); a query task asks the keychain directly for (host, reference) pairs; layer tasks resolve, read, check and refresh blobs of their image through service/resolver.RegistryHostsFromConfig (real go-retryablehttp, net/http client and docker authorizer over the simulated transport). Secrets and header values are unique strings; EVERY request seen by any simulated host is scanned (URL, headers, decoded Basic auth, form bodies; tokens issued by the token endpoint are derived secrets): a credential may appear only in requests made for the image reference it was captured for, to the host its server address names (if any), while it is the most recent pull of that reference and the image is not removed, and never at the CDN; a configured header only at its own host. non-trivial = a request carried a credential, or the CDN was reached; distinct = schedule hash x configuration",
 		Run:  run,
 		PanicIsViolation: true,
 		HangIsViolation:  true,
